@@ -433,6 +433,7 @@ def _count_vectors(n, M):
 
 
 def jobs(tier):
+    T = 90 if tier == "quick" else 600
     C, M = (3, 3) if tier == "quick" else (4, 4)
     out = []
     for cap in range(1, C + 1):
@@ -443,13 +444,13 @@ def jobs(tier):
                     if op == "update":
                         for m in (1, 2):
                             out.append(Job("C07", "harness.c07", "step", {"op": op, "cap": cap, "cnts": cnts, "m": m},
-                                           timeout=600, name="step[%s,cap=%d,cnts=%s,m=%d]" % (op, cap, cs, m), assoc=ASSOC))
+                                           timeout=T, name="step[%s,cap=%d,cnts=%s,m=%d]" % (op, cap, cs, m), assoc=ASSOC))
                     else:
-                        out.append(Job("C07", "harness.c07", "step", {"op": op, "cap": cap, "cnts": cnts}, timeout=600,
+                        out.append(Job("C07", "harness.c07", "step", {"op": op, "cap": cap, "cnts": cnts}, timeout=T,
                                        name="step[%s,cap=%d,cnts=%s]" % (op, cap, cs), assoc=ASSOC))
-                out.append(Job("C07", "harness.c07", "store_then_lookup", {"cap": cap, "cnts": cnts}, timeout=600,
+                out.append(Job("C07", "harness.c07", "store_then_lookup", {"cap": cap, "cnts": cnts}, timeout=T,
                                name="store_then_lookup[cap=%d,cnts=%s]" % (cap, cs), assoc=ASSOC))
                 for kind in ("dict", "lfu-reversed"):
                     out.append(Job("C07", "harness.c07", "eq_step", {"cap": cap, "cnts": cnts, "kind": kind},
-                                   timeout=600, name="eq[%s,cap=%d,cnts=%s]" % (kind, cap, cs), assoc=ASSOC))
+                                   timeout=T, name="eq[%s,cap=%d,cnts=%s]" % (kind, cap, cs), assoc=ASSOC))
     return out
